@@ -66,6 +66,7 @@ def run_consensus(ck, tags, oracle, tier, ntrees_quick=6, ntrees_thorough=40, ex
         interval = rng.choice([None, 4, 5]) if 'C02' in tags else rng.choice([None, None, 4])
         with chaingen.Env(period=period, interval=interval) as env:
             tg = chaingen.TreeGen(env, keys, rng)
+            tg.malformed_rewards = 'C01' in tags
             if trial % 3 == 0 and ('C05' in tags or tier == 'thorough'):
                 chaingen.grow_two_branches(tg, env.period)
             else:
